@@ -99,6 +99,33 @@ func checkReader(c *h.Ctx, r reader, cs Case, where string) {
 		c.Fail("C19/stored-missing/"+where, "%s: stored ciphertext not readable: %v", where, err)
 		return
 	}
+	// the key is whatever the key buffer holds AT THE CALL: a buffer that opened the value a moment ago and has
+	// since been overwritten with another key, or wiped, must not open it
+	kb := append([]byte{}, cs.Key...)
+	_, errS := r.GetEncryptedString("secret", kb)
+	_, errB := r.GetEncryptedBytes("secret", kb)
+	if errS == nil && errB == nil && !bytes.Equal(cs.Other, cs.Key) {
+		copy(kb, cs.Other)
+		if got, err := get(r, cs, "secret", kb); err == nil {
+			c.Fail("C19/wrong-key-accepted/key-buffer-reused/"+where, "%s: a key buffer that has been overwritten with ANOTHER key after a successful read still opens the value (%d bytes)", where, len(got))
+		}
+		if s, err := r.GetEncryptedString("secret", kb); err == nil {
+			c.Fail("C19/wrong-key-accepted/key-buffer-reused/"+where, "%s: GetEncryptedString with an overwritten key buffer returned %d bytes", where, len(s))
+		}
+		for i := range kb {
+			kb[i] = 0
+		}
+		if got, err := get(r, cs, "secret", kb); err == nil {
+			c.Fail("C19/bad-key-accepted/key-buffer-wiped/"+where, "%s: a wiped (all-zero) key buffer still opens the value (%d bytes)", where, len(got))
+		}
+		if s, err := r.GetEncryptedString("secret", kb); err == nil {
+			c.Fail("C19/bad-key-accepted/key-buffer-wiped/"+where, "%s: GetEncryptedString with a wiped key buffer returned %d bytes", where, len(s))
+		}
+		// and the right key still works afterwards
+		if got, err := get(r, cs, "secret", cs.Key); err != nil || !bytes.Equal(got, cs.Plain) {
+			c.Fail("C19/roundtrip/"+where, "%s: reading with the right key after failed reads: err=%v", where, err)
+		}
+	}
 	// (the stored length is not part of the property: a different framing / overhead is a legitimate change)
 	if len(stored) == len(cs.Plain)+40 {
 		c.P.Class("overhead=40")
